@@ -146,12 +146,14 @@ inline bytes tkip_encap(const uint8_t tk[16], const uint8_t mickey[8], const uin
     return out;
 }
 
-// CCMP (IEEE 802.11-2012 11.4.3): hdr = the MAC header bytes of the MPDU (24, 26, 30 or 32 bytes)
+// CCMP (IEEE 802.11-2012 11.4.3): hdr = the MAC header bytes of the MPDU (24, 26, 30 or 32 bytes; 4 more when a QoS data
+// frame has the Order bit set and so carries an HT Control field, which is not part of the AAD)
 inline bytes ccmp_aad(const bytes& h) {
     bool a4 = (h[1] & 3) == 3, qos = (h[0] & 0x80) != 0;
     bytes a;
     a.push_back(h[0] & 0x8f);
-    a.push_back((h[1] & 0xc7) | 0x40);
+    // Retry, PwrMgt, MoreData masked, Protected set; Order masked in data frames with a QoS control field
+    a.push_back((h[1] & (qos ? 0x47 : 0xc7)) | 0x40);
     a.insert(a.end(), h.begin() + 4, h.begin() + 22);
     a.push_back(h[22] & 0x0f); a.push_back(0);
     size_t off = 24;
